@@ -326,6 +326,7 @@ class ConcreteValidate(Target):
     name = 'FlowIRConcrete.validate'
     file = F
     qualname = 'FlowIRConcrete.validate'
+    max_paths = 40000
     compare_return = False
     set_iter = 'sorted-repr'
     trusted = ["FlowIR.validate / FlowIR.validate_component return the list of problems of the document / of one component "
@@ -350,6 +351,12 @@ class ConcreteValidate(Target):
             imported = c.one_of('comp%d.is_import' % i, [False, True]) if i == 1 else False
             problems = [errors.FlowIRInconsistency('problem of comp%d' % i, {})] if c.one_of('comp%d.has_problem' % i, [False, True]) else []
             comp = {'stage': 0, 'name': 'comp%d' % i, 'command': {}}
+            if c.one_of('comp%d.is_a_later_replica' % i, [False, True]):
+                # the statement speaks about the EXPANDED graph: replica k > 0 of a replicated component is a component
+                # like any other (its configuration may differ through %(replica)s)
+                comp['name'] = 'comp%d' % i
+                comp['workflowAttributes'] = {'replicate': 3}
+                comp['variables'] = {'replica': 2}
             if env != '<absent>':
                 comp['command']['environment'] = env
             if imported:
